@@ -83,6 +83,8 @@ def tasks(ctx, quick):
     grid = [10 ** (k / 4.0) for k in range(-8, 21)]
     for E in grid + [rng.uniform(0.03, 30000) for _ in range(40)]:
         add({"kind": "conv", "E": E, "lam": rng.choice([0.05, 50.0, rng.uniform(0.05, 50)]), "v": rng.choice([2200.0, 100.0, rng.uniform(50, 80000)])})
+    for E, lam, v in [(1, 1, 2200), (25, 2, 100), (100, 5, 4000), (3, 12, 700), (1000, 6, 2200), (2, 4, 50)]:
+        add({"kind": "conv", "E": E, "lam": lam, "v": v})           # whole numbers (passed as ints and integer arrays too)
     add({"kind": "anchor"})
     # non-negativity on absorbers / negative scattering lengths / clipped incoherent terms
     special = [[[1, 0, 0, 2], [8, 0, 0, 1]], [[22, 0, 0, 1]], [[25, 0, 0, 1], [28, 62, 0, 1]], [[3, 6, 0, 1]], [[5, 10, 0, 4], [6, 0, 0, 1]],
